@@ -372,7 +372,12 @@ class Graph:
     def _finish(self):
         self._memo.clear()
         self.pruned = self._prune_const_switches()
-        self.threaded = self._thread_jumps()
+        self.threaded = 0
+        for _pass in range(6):
+            c = self._thread_jumps()
+            self.threaded += c
+            if c == 0:
+                break
         self._relink()
 
     def _relink(self):
@@ -384,6 +389,23 @@ class Graph:
         self._reach = None
         self._idom = None
         self._scc = None
+        live = self.live()
+        self.exits = [n.id for n in self.nodes if n.id in live and n.kind == 'block' and n.inst == self.root_inst and n.term['k'] == 'ret']
+        self._members = {}
+        for n in self.nodes:
+            self._members.setdefault(self.site_of(n.id), []).append(n.id)
+        self._live_sites = {self.site_of(n) for n in live}
+
+    def site_of(self, nid):
+        n = self.nodes[nid]
+        return (n.inst, n.bb, n.kind, n.edge[1] if n.edge else None, bool(n.edge and n.edge[1] is None))
+
+    def members(self, nid):
+        """all nodes (live or not) sharing the node's site: the original and its threading clones"""
+        return self._members.get(self.site_of(nid), [nid])
+
+    def site_live(self, nid):
+        return self.site_of(nid) in self._live_sites
 
     def _prune_const_switches(self):
         """a switchInt whose operand is a compile-time constant after inlining (e.g. the flavour's
@@ -433,6 +455,12 @@ class Graph:
                     o, a = self._variant_origins(iid, rv['pl']['l'], fwd, depth + 1)
                     outs += o
                     allc = allc and a
+                elif rv['k'] == 'discr':
+                    o = self._resolve_variant(iid, rv['pl']['l'], list(rv['pl']['p']), fwd, depth + 1)
+                    if o is None:
+                        allc = False
+                    else:
+                        outs += o
                 else:
                     allc = False
             elif d[0] == 'ret':
@@ -462,6 +490,75 @@ class Graph:
             else:
                 allc = False
         return outs, allc
+
+    def _resolve_variant(self, iid, l, projs, fwd, depth):
+        """origins [(node, discr)] of the enum stored at place `local.projs` when the local is
+        assigned whole aggregates (possibly in callees); None if not statically resolvable.
+        The origin node is the node that builds the *outermost* aggregate."""
+        if depth > 16:
+            return None
+        fwd.add((iid, l))
+        ds = self.defs.get((iid, l))
+        if not ds or (iid, l) in self.pdefs:
+            return None
+        outs = []
+        for d in ds:
+            if d[0] == 'ret':
+                o = self._resolve_variant(d[1], 0, projs, fwd, depth + 1)
+                if o is None:
+                    return None
+                outs += o
+            elif d[0] == 'rv':
+                rv, nid = d[1], d[3]
+                if rv['k'] == 'use' and rv['op']['k'] in ('copy', 'move'):
+                    pl = rv['op']['pl']
+                    o = self._resolve_variant(iid, pl['l'], list(pl['p']) + projs, fwd, depth + 1)
+                    if o is None:
+                        return None
+                    outs += o
+                elif rv['k'] == 'agg':
+                    r = self._agg_path(iid, rv, projs, fwd, depth)
+                    if r is None:
+                        return None
+                    if r != 'infeasible':
+                        outs.append((nid, r))
+                else:
+                    return None
+            else:
+                return None
+        return outs
+
+    def _agg_path(self, iid, rv, projs, fwd, depth):
+        """follow projs into aggregate rv -> discriminant string, 'infeasible', or None"""
+        if not projs:
+            if rv['ak'] == 'adt' and rv.get('discr') is not None:
+                return str(rv['discr'])
+            return None
+        q = projs[0]
+        rest = projs[1:]
+        if isinstance(q, dict) and 'downcast' in q:
+            if rv['ak'] != 'adt':
+                return None
+            if rv['variant'] != q['downcast']:
+                return 'infeasible'
+            return self._agg_path(iid, rv, rest, fwd, depth)
+        if isinstance(q, dict) and 'i' in q:
+            idx = q['i']
+            if rv['ak'] == 'adt' and q.get('f') is not None and q['f'] in rv.get('fields', []):
+                idx = rv['fields'].index(q['f'])
+            if idx >= len(rv['ops']):
+                return None
+            o = rv['ops'][idx]
+            if o['k'] == 'const':
+                return None
+            if o['k'] not in ('copy', 'move'):
+                return None
+            pl = o['pl']
+            r = self._resolve_variant(iid, pl['l'], list(pl['p']) + rest, fwd, depth + 1)
+            if r is None or len({v for (_, v) in r}) != 1:
+                return None
+            return r[0][1]
+        return None
 
     def _variant_origins(self, iid, l, fwd, depth):
         if depth > 12 or (iid, l) in fwd:
@@ -521,38 +618,38 @@ class Graph:
                 if o == sid:
                     continue
                 O = self.nodes[o]
-                if len(O.succs) != 1:
-                    continue
-                # walk the chain
-                chain = []
-                x = O.succs[0]
-                ok = True
-                while x != sid:
-                    X = self.nodes[x]
-                    if len(X.succs) != 1 or x in onodes or x in chain or len(chain) > 40:
-                        ok = False
-                        break
-                    if X.call is not None and X.call['inlined'] is None:
-                        # an external call on the way must not define a forwarded local
-                        d = X.term['dest']
-                        if (X.inst, d['l']) in fwd and x not in self._fwd_calls:
-                            ok = False
-                            break
-                    chain.append(x)
-                    x = X.succs[0]
-                if not ok:
+                if not O.succs or len(self.nodes) > 80000:
                     continue
                 tgt = edges.get(v, other)
                 if tgt is None:
                     continue
-                prev = O
-                for c in chain:
-                    C = self.nodes[c]
+                # region between O and the switch: everything reachable from O without passing S
+                region = self.reachable(O.succs, blocked={sid})
+                touches = any(sid in self.nodes[r].succs for r in region) or sid in O.succs
+                if not touches or len(region) > 400:
+                    continue
+                if (region & onodes) - {o}:
+                    continue
+                ok = True
+                for r in region:
+                    X = self.nodes[r]
+                    if X.call is not None and X.call['inlined'] is None:
+                        d = X.term['dest']
+                        if (X.inst, d['l']) in fwd and r not in self._fwd_calls:
+                            ok = False
+                            break
+                if not ok:
+                    continue
+                clone = {}
+                for r in region:
+                    C = self.nodes[r]
                     N = self._new_node(C.inst, C.fn, C.bb, C.kind)
                     N.stmts, N.term, N.line, N.call, N.edge = C.stmts, C.term, C.line, C.call, C.edge
-                    prev.succs = [N.id]
-                    prev = N
-                prev.succs = [tgt]
+                    clone[r] = N.id
+                for r in region:
+                    C = self.nodes[r]
+                    self.nodes[clone[r]].succs = [tgt if s_ == sid else clone.get(s_, s_) for s_ in C.succs]
+                O.succs = [tgt if s_ == sid else clone.get(s_, s_) for s_ in O.succs]
                 cnt += 1
         return cnt
 
@@ -814,6 +911,19 @@ class Graph:
             elif k == 'phi':
                 stack.extend(x[1])
 
+    def deep_walk(self, e):
+        """walk that also descends into the arguments of the calls whose results are mentioned"""
+        seen = set()
+        seen_calls = set()
+        todo = [e]
+        while todo:
+            x = todo.pop()
+            for s in self.walk(x, seen):
+                yield s
+                if s[0] == 'call' and s[1] not in seen_calls:
+                    seen_calls.add(s[1])
+                    todo.extend(self.call_args(s[1]))
+
     def call_nodes_in(self, e, deep=True, _depth=0):
         """ids of (non-inlined) call nodes whose result the expression mentions; with
         deep=True also through the arguments of those calls"""
@@ -826,7 +936,7 @@ class Graph:
             for s in self.walk(x, seen):
                 if s[0] == 'call' and s[1] not in seen_calls:
                     seen_calls.add(s[1])
-                    out.add(s[1])
+                    out.update(self.members(s[1]))
                     if deep:
                         for a in self.call_args(s[1]):
                             todo.append(a)
@@ -1146,7 +1256,7 @@ def atomic_events(g, live_only=True):
     for n in g.nodes:
         if n.call is None or n.call['inlined'] is not None:
             continue
-        if live_only and n.id not in live:
+        if live_only and not g.site_live(n.id):
             continue
         name = g.call_name(n.id) or ''
         m = ATOMIC_RE.search(name)
